@@ -7,7 +7,9 @@ import (
 	_ "verifmc/props/c06"
 	_ "verifmc/props/c07"
 	_ "verifmc/props/c08"
+	_ "verifmc/props/c10"
 	_ "verifmc/props/c14"
+	_ "verifmc/props/c15"
 	_ "verifmc/props/c16"
 	_ "verifmc/props/c18"
 	_ "verifmc/props/c19"
